@@ -62,6 +62,31 @@ def gen_cases(tier, seed, ctx):
                     open(q, 'wb').write(bytes(m))
                     cases.append(E.Case('o%d' % len(cases), 'OPEN %s %d %s %s %s %d' % (
                         q, pr['hash_type'], good, rnd.choice(['-', str(total)]), rnd.choice(['td', 'dt']), rnd.choice([0, 1])), dict(kind='sub-pinned')))
+        # the same value spelled differently: a compressed integer of the lead (checksum type, header size) or of the header (flags,
+        # compression type, index size, chunk-checksum type, count) written one digit longer (stop bit moved to an appended 0x80); for the
+        # header integers the header-size field is adjusted when it stays one byte.  Other bytes, same values: the checksum must refuse it
+        try:
+            pr = Z.parse(b)
+            ints = []
+            pos = 5
+            for _ in range(2):                                   # lead: checksum type, header size
+                _, q = Z.read_ci(b, pos); ints.append((pos, q, True)); pos = q
+            hp = pr['lead'] + Z.HSIZE[pr['hash_type']]          # header: flags, compression type, (opt elems), index size, chunk type, count
+            for _ in range(2):
+                _, q = Z.read_ci(b, hp); ints.append((hp, q, False)); hp = q
+            if not (pr['flags'] & 2):
+                for _ in range(3):
+                    _, q = Z.read_ci(b, hp); ints.append((hp, q, False)); hp = q
+            for (a0, q, in_lead) in ints:
+                m = bytearray(b[:q - 1]) + bytes([b[q - 1] & 0x7f, 0x80]) + b[q:]
+                if not in_lead and pr['header_len'] < 127 and 6 < len(m):
+                    # header grew by one byte: adjust a one-byte header-size field
+                    m[6] = 0x80 | (pr['header_len'] + 1) if b[6] & 0x80 else m[6]
+                q2 = os.path.join(ctx['work'], '%s.respell%d.zck' % (name, a0))
+                open(q2, 'wb').write(bytes(m))
+                cases.append(E.Case('o%d' % len(cases), 'OPEN %s - - - td 0' % q2, dict(kind='respelled-integer')))
+        except Exception:
+            pass
         # first body byte (outside the header): must NOT affect open
         if len(b) > hl:
             cases.append(E.Case('o%d' % len(cases), 'OPENM %s %d %02x' % (p, hl, b[hl] ^ 0xff), dict(kind='body-byte')))
@@ -89,6 +114,6 @@ def run(tier, seed, replay=None):
     rule = ("OPEN with pins = the same substitutions opened through the advanced API with the ORIGINAL header checksum / type / length given as expected values (with and without zck_validate_lead); OPENRETRY = the same through zck_read_lead / zck_read_header with every failing step retried after zck_clear_error on the same "
             "context (2 values per position); OPENM = zck_init_read on a valid file with ONE header byte substituted: for the sampled valid files (all hash types, flags, "
             "dict, detached) every position in [0, header length) x all 255 other values (exhaustive; 5 files quick, 24 thorough; the "
-            "remaining files x 6 values per position), the first body byte as a control, and insertions/deletions with the size field "
+            "remaining files x 6 values per position), the first body byte as a control, compressed integers re-spelled one digit longer (same value, other bytes), and insertions/deletions with the size field "
             "adjusted; a case is distinct by (file, position, value) and non-trivial when it is a mutation")
     return E.standard_run(PROP, MODULES, gen_cases, tier, seed, replay, ASSUMPTIONS, rule, nontrivial=nontrivial)
